@@ -160,6 +160,46 @@ theorem backwards_clock_restarts_interval (last now : Int) (interval : Nat) (h :
     simp [this]
     omega
 
+/-! ### A changed publishing interval -/
+
+/-- **"Interval elapsed" is computed from the CURRENT interval.**  After ModifySubscription has set a
+new publishing interval `i'`, a timer tick at `now ≥ last` of a subscription that has left Creating
+counts as elapsed exactly when `now − last ≥ i'` — whatever the interval was before — and only then
+restarts the interval at `now`. -/
+theorem elapsed_uses_current_interval (s : St) (i' : Nat) (now : Int) (sub : C22.Subn)
+    (hs : s.z.sub = some sub) (hc : sub.state ≠ .creating) (hn : s.last ≤ now) (s2 : St) (out : List Resp)
+    (h : timerTick true (setInterval s i') now = some (s2, out)) :
+    (s2.last = now ↔ (now - s.last ≥ i' ∨ now = s.last)) ∧ (s2.last = now ∨ s2.last = s.last) := by
+  have hsub : (setInterval s i').z.sub = some (C22.modifySub sub sub.maxKa sub.maxLife) := by
+    simp [setInterval, hs]
+  have hst : (C22.modifySub sub sub.maxKa sub.maxLife).state ≠ .creating := hc
+  unfold timerTick at h
+  rw [hsub] at h
+  simp only [hst, if_false] at h
+  have hl : (setInterval s i').last = s.last := rfl
+  have hi : (setInterval s i').interval = i' := rfl
+  rw [hl, hi] at h
+  unfold elapsedCheck at h
+  have hnb : ¬ now < s.last := by omega
+  simp only [hnb, if_false] at h
+  by_cases he : now - s.last ≥ (i' : Int)
+  · simp only [he, if_true] at h
+    split at h
+    · cases h
+    · simp only [Option.some.injEq, Prod.mk.injEq] at h
+      obtain ⟨rfl, _⟩ := h
+      exact ⟨⟨fun _ => Or.inl he, fun _ => rfl⟩, Or.inl rfl⟩
+  · simp only [he, if_false] at h
+    split at h
+    · cases h
+    · simp only [Option.some.injEq, Prod.mk.injEq] at h
+      obtain ⟨rfl, _⟩ := h
+      refine ⟨⟨fun h1 => Or.inr ?_, fun h1 => ?_⟩, Or.inr rfl⟩
+      · exact h1.symm
+      · rcases h1 with h1 | h1
+        · exact absurd h1 he
+        · exact h1.symm
+
 /-! ### Non-vacuity and the repaired defects -/
 
 example : expire true 30000 1000000 [⟨1, 61000000, 0⟩, ⟨2, -30000001, 0⟩, ⟨3, -29000000, 0⟩, ⟨4, 0, 500⟩] =
